@@ -47,27 +47,36 @@ def unit(model, sizes, ranks):
         d.update(kw)
         return d
 
-    # ---- tau-equiv: symbolic t >= 0 of kind int or float
+    # ---- tau-equiv: symbolic t >= 0 of kind int or float, under every limit_sigma combination
     S = extract.Scratch(model)
     game.stub_gauss_uninterpreted(S)
-    ctx = Ctx("U")
+    for (la, lb) in ((False, None), (True, None), (False, True), (True, False)):
+        ctx = Ctx("U")
 
-    def run_tau(ctx):
-        t = ctx.number("t", kinds=(KINT, KFLOAT))
-        ctx.assume(t.t >= 0)
-        mA, _ = game.mk_model(ctx, S)
-        mB, _ = game.mk_model(ctx, S, tau=t)
-        ra = call(mA.rate, game.mk_teams(ctx, S, sizes), ranks=list(ranks) if ranks else None, tau=t)
-        rb = call(mB.rate, game.mk_teams(ctx, S, sizes), ranks=list(ranks) if ranks else None)
-        rp = lambda md: base_rp(md, "c15_tau", t=enc_model(md, "t"))
-        ctx.oblige(f"C15/{model}/rate/tau-equiv@{shape}", _compare(ra, rb), meta={"replay": rp, "fn": fn, "shape": shape})
-        # canary: "the per-call tau is ignored"
-        mC, _ = game.mk_model(ctx, S)
-        rc = call(mC.rate, game.mk_teams(ctx, S, sizes), ranks=list(ranks) if ranks else None)
-        ctx.oblige(f"C15/{model}/rate/tau-equiv/canary@{shape}", _compare(ra, rc), kind="canary",
-                   meta={"replay": lambda md: base_rp(md, "c15_tau", t=enc_model(md, "t"), clause="canary"), "fn": fn, "shape": shape})
-    explore(ctx, run_tau)
-    recs += _merge_canaries(settle(ctx.all_obls, mode="U"))
+        def run_tau(ctx, la=la, lb=lb):
+            t = ctx.number("t", kinds=(KINT, KFLOAT))
+            ctx.assume(t.t >= 0)
+            tau0 = ctx.real("m_tau")
+            # the model's own tau may be 0 as well: an explorer fork, not a sample
+            if ctx.decide(tau0.t == 0):
+                pass
+            eff = la if lb is None else lb
+            mA, _ = game.mk_model(ctx, S, limit_sigma=la)
+            mB, _ = game.mk_model(ctx, S, tau=t, limit_sigma=eff)
+            kw = {} if lb is None else {"limit_sigma": lb}
+            ra = call(mA.rate, game.mk_teams(ctx, S, sizes), ranks=list(ranks) if ranks else None, tau=t, **kw)
+            rb = call(mB.rate, game.mk_teams(ctx, S, sizes), ranks=list(ranks) if ranks else None)
+            rp = lambda md: base_rp(md, "c15_tau", t=enc_model(md, "t"), a=la, b=lb)
+            tag = f"[model_limit={la},call_limit={lb}]"
+            ctx.oblige(f"C15/{model}/rate/tau-equiv{tag}@{shape}", _compare(ra, rb), meta={"replay": rp, "fn": fn, "shape": shape})
+            if la is False and lb is None:
+                # canary: "the per-call tau is ignored"
+                mC, _ = game.mk_model(ctx, S)
+                rc = call(mC.rate, game.mk_teams(ctx, S, sizes), ranks=list(ranks) if ranks else None)
+                ctx.oblige(f"C15/{model}/rate/tau-equiv/canary@{shape}", _compare(ra, rc), kind="canary",
+                           meta={"replay": lambda md: base_rp(md, "c15_tau", t=enc_model(md, "t"), clause="canary"), "fn": fn, "shape": shape})
+        explore(ctx, run_tau)
+        recs += _merge_canaries(settle(ctx.all_obls, mode="U"))
 
     # ---- tau omitted / None uses the model's own
     ctx = Ctx("U")
